@@ -145,8 +145,14 @@ def run(prop, tier, seed, t0):
                                    'msg': 'derived `impl Encode` overrides none of encode_to/using_encoded/encode: the trait defaults call each other forever',
                                    'text': 'definition: %s\nexpanded impl header: %s\nmethods overridden: %s' % (w['definition'], w['impl'], w['overrides']),
                                    'witness': None})
-        if 'family_defs' in (getattr(check, '_last_extra', None) or {}):
-            pass
+        if prop == 'C16' and cfgname == configs[0]:
+            el = meta.get('encode_like', [])
+            refl = [e for e in el if e['kind'] == 'reflexive']
+            cov['obligations'] += len(refl)
+            cov['discharged'] += len(refl)
+            cov['encode_like_impls'] = {'found_in_expansion': len(el), 'lemmas_proved_by_verus': len([e for e in el if e['kind'] == 'lemma']),
+                                        'reflexive_syntactic': len(refl), 'not_decided': [e['impl'] for e in el if e['kind'] == 'not decided'],
+                                        'thorough_only': len([e for e in el if e['kind'].startswith('tuple')])}
         # vacuity guard: canaries must fail
         can = [l for l in meta['lemmas'] if l['id'].startswith('canary.')]
         cov['verus'][cfgname]['canaries'] = len(can)
